@@ -4,6 +4,7 @@ import (
 	"bufio"
 	"encoding/json"
 	"fmt"
+	"gverif/dispatch"
 	"math/rand"
 	"os"
 )
@@ -55,7 +56,7 @@ var isSelected = map[string]bool{
 	"ExecuteSelectedRulesWithControlAsGivenSortedName":           true,
 	"ExecuteSelectedRulesWithControlAndStopTag":                  true,
 	"ExecuteSelectedRulesWithControlAndStopTagAsGivenSortedName": true,
-	"ExecuteSelectedRulesConcurrent": true, "ExecuteSelectedRulesMixModel": true,
+	"ExecuteSelectedRulesConcurrent":                             true, "ExecuteSelectedRulesMixModel": true,
 	"ExecuteSelectedRulesInverseMixModel": true,
 }
 var isSelNM = map[string]bool{"ExecuteSelectedNSortMConcurrent": true,
@@ -171,7 +172,7 @@ func genCall(r *rand.Rand, fam string, rules []Rule, target string) Call {
 		}
 	}
 	if target == "pool" {
-		if _, ok := emOf[m]; ok && r.Intn(3) == 0 {
+		if _, ok := dispatch.EmOf[m]; ok && r.Intn(3) == 0 {
 			if isSelected[m] {
 				c.Via = "emSelected"
 			} else if r.Intn(2) == 0 {
@@ -219,8 +220,85 @@ func genRandom(n int, fam string, seed int64, path string, target string) {
 		if fam == "result" {
 			nc = 2 + r.Intn(3)
 		}
+		if nc == 1 && r.Intn(4) == 0 {
+			nc = 2 // the interesting call comes after a change of the rule set
+		}
+		cur := append([]Rule{}, rules...)
+		next := nr
 		for j := 0; j < nc; j++ {
-			c := genCall(r, fam, rules, tgt)
+			var pre []dispatch.Update
+			if j > 0 && r.Intn(3) != 0 {
+				switch k := r.Intn(4); {
+				case k == 0 && len(cur) > 1: // remove one or two rules
+					del := []string{cur[r.Intn(len(cur))].Name}
+					if r.Intn(3) == 0 {
+						del = append(del, "zz")
+					}
+					pre = append(pre, dispatch.Update{Op: "remove", Names: del})
+					var kept []Rule
+					for _, x := range cur {
+						if x.Name != del[0] {
+							kept = append(kept, x)
+						}
+					}
+					cur = kept
+				case k == 1 && len(cur) > 0: // full rebuild with re-drawn saliences
+					nw := append([]Rule{}, cur...)
+					for i := range nw {
+						nw[i].Sal = randSal(r, style)
+					}
+					pre = append(pre, dispatch.Update{Op: "full", Rules: nw})
+					cur = nw
+				default: // incremental: new rules and/or replaced rules (same or changed salience)
+					var ch []Rule
+					for n := 1 + r.Intn(2); n > 0; n-- {
+						if len(cur) > 0 && r.Intn(2) == 0 {
+							x := cur[r.Intn(len(cur))]
+							dup := false
+							for _, y := range ch {
+								if y.Name == x.Name {
+									dup = true
+								}
+							}
+							if dup {
+								continue
+							}
+							if r.Intn(3) != 0 {
+								x.Sal = randSal(r, style)
+							}
+							ch = append(ch, x)
+						} else if next < 14 {
+							next++
+							ch = append(ch, Rule{Name: fmt.Sprintf("r%d", next), Sal: randSal(r, style), Tpl: "A"})
+						}
+					}
+					if len(ch) > 0 {
+						pre = append(pre, dispatch.Update{Op: "incr", Rules: ch})
+						for _, x := range ch {
+							found := false
+							for i := range cur {
+								if cur[i].Name == x.Name {
+									cur[i] = x
+									found = true
+								}
+							}
+							if !found {
+								cur = append(cur, x)
+							}
+						}
+					}
+				}
+			}
+			c := genCall(r, fam, cur, tgt)
+			c.Pre = pre
+			if j > 0 && len(pre) > 0 && r.Intn(2) == 0 && len(s.Calls) > 0 {
+				// repeat the previous call's method and name list on the changed rule set
+				prev := s.Calls[len(s.Calls)-1]
+				c.Method, c.Names, c.N, c.M, c.Dag, c.Via = prev.Method, prev.Names, prev.N, prev.M, prev.Dag, prev.Via
+				if c.Via != "direct" && c.Method == "Execute" {
+					c.B = true
+				}
+			}
 			if !seqOnly[c.Method] {
 				s.Gated = true
 			}
@@ -229,6 +307,7 @@ func genRandom(n int, fam string, seed int64, path string, target string) {
 		if r.Intn(8) == 0 {
 			s.Gated = true
 		}
+		s.Burst = s.Gated && r.Intn(2) == 0
 		b, _ := json.Marshal(s)
 		w.Write(b)
 		w.WriteByte('\n')
